@@ -526,7 +526,7 @@ def r05_2(ctx, rr):
     rr.check(arms["set"] and arms["clear"], "BitVec::set_unchecked:both-arms", "BitVec::set_unchecked must or the bit `1 << (index %% BITS)` in for true and and-not it out for false (found set: %s, clear: %s)" % (arms["set"], arms["clear"]), b.span)
 
 
-@rule("R11.4", props=["C11", "C05", "C06", "C10", "C12"], floor=5, title="constructors allocate ceil(len*width/BITS) words (+1 padding word / at least 1) and set len, bit_width, mask")
+@rule("R11.4", props=["C11", "C05", "C06", "C10", "C12", "C13"], floor=5, title="constructors allocate ceil(len*width/BITS) words (+1 padding word / at least 1) and set len, bit_width, mask")
 def r11_4(ctx, rr):
     F = ctx.F()
     specs = [
@@ -556,7 +556,10 @@ def r11_4(ctx, rr):
         if ok and not pad:
             ok = not mentions(bits, lambda x: x[0] == "op" and x[1] == "+" and x[2] == want_words)
         rr.instances += 1
-        rr.check(ok, "%s:words" % short_fn(b.key), "%s must allocate %sceil(len*bit_width/BITS)%s words; found %s" % (b.key, "max(1, " if mx else "", (" + %d" % pad) if pad else "", tshow(bits)[:200]), b.span)
+        # the atomic vector is converted into the plain one without copying: its backend is the plain one's (C13:
+        # the concurrent Elias-Fano builder reads through that conversion)
+        sc = ["C11", "C05", "C10", "C12"] + (["C13"] if "Atomic" in b.key else [])
+        rr.check(ok, "%s:words" % short_fn(b.key), "%s must allocate %sceil(len*bit_width/BITS)%s words; found %s" % (b.key, "max(1, " if mx else "", (" + %d" % pad) if pad else "", tshow(bits)[:200]), b.span, props=sc)
         rr.instances += 1
         rr.check(L.get("len") == ("var", "len") and L.get("bit_width") == ("var", "bit_width") and L.get("mask") == ("call", "bit_field_vec::mask", (("var", "bit_width"),)),
                  "%s:fields" % short_fn(b.key), "%s must store len, bit_width and mask(bit_width)" % b.key, b.span)
@@ -632,6 +635,12 @@ def r05_6(ctx, rr):
         atoms = cond_atoms(T, found["c"], True)
         want = cmp_atoms(op, lhs, rhs, True)
         ok = sorted(map(repr, atoms)) == sorted(map(repr, want))
+        if not ok and op == "<" and lhs[0] == "op" and lhs[1] == "*":
+            # the same test on words: bits.len() < ceil(needed / BITS)
+            for wl, ws in ((lhs[2], lhs[3]), (lhs[3], lhs[2])):
+                if wl[0] == "call" and wl[1] == "len":
+                    want2 = cmp_atoms("<", wl, ("call", "int::div_ceil", (rhs, ws)), True)
+                    ok = ok or sorted(map(repr, atoms)) == sorted(map(repr, want2))
         rr.ob(ok, key=key, sample={"fn": b.key, "test": show(F, found["c"])[:120]})
         if not ok:
             rr.violate(key, "%s must extend the backend exactly when the bits needed exceed `self.bits.len() * BITS` (the words actually present, not the capacity); found the test `%s`" % (b.key, show(F, found["c"])[:160]), F.loc(found))
